@@ -1,6 +1,7 @@
 (* C07 driver.
    case  = ll gdef lookups hist          -> trace of run_history (M_shape on one Context)
          | keep flags mfs gdef (gid...)  -> keepf on every gid
+         | shape ll                      -> (reader_shape implemented simple) of Shape.v
    see harness/c07/sx.go for the grammar *)
 let pair f g x = match x with L [a; b] -> (f a, g b) | _ -> failwith "pair expected"
 let slist f x = List.map f (lst x)
@@ -71,6 +72,9 @@ let () = main_loop (fun c ->
     let lk = { lk_flags = sx_n f; lk_mfs = sx_nat m; lk_subs = [] } in
     let gd = sx_gdef gd in
     L (List.map (fun g -> ab (keepf gd lk (sx_n g))) (lst gids))
+  | [A "shape"; ll] ->
+    let ll = slist sx_lookup ll in
+    L [ab (reader_shape ll); ab (implemented ll); ab (simple ll)]
   | [ll; gd; lookups; hist] ->
     let ll = slist sx_lookup ll in
     let gd = sx_gdef gd in
